@@ -340,8 +340,8 @@ class ASTString(ASTTemplate):
             self.vtl_script += f"\treturns {node.output_type.lower()} is{nl}"
             expression = self.visit(node.expression)
             if "(" in expression:
-                expression = expression.replace("(", f"({nl}{tab * 2}")
-                expression = expression.replace(")", f"{nl}{tab * 2})")
+                expression = _replace_outside_strings(expression, "(", f"({nl}{tab * 2}")
+                expression = _replace_outside_strings(expression, ")", f"{nl}{tab * 2})")
 
             self.vtl_script += f"{tab * 2}{expression}{nl}"
             self.vtl_script += f"end operator;{nl}"
